@@ -125,6 +125,12 @@ type InputWeights struct {
 	// segment unchecked, so this is the input on which a loader's internal panic
 	// happens after (or before) basic metadata was extracted
 	ShortSOF int
+	// Soup: a grammar-level fuzz of each container - a drawn sequence of
+	// recognised (and a few unknown) markers / chunks with declared lengths from
+	// {0,1,2,3,4,8,9,12,13, actual, actual+-1, huge}, with or without the leading
+	// signature. Neither valid nor a damaged valid file: the inputs on which
+	// "first structure of the stream" corner cases live.
+	Soup int
 }
 
 var signatures = [][]byte{
@@ -138,7 +144,9 @@ var signatures = [][]byte{
 
 // DrawInput draws one input.
 func DrawInput(t *tape.Tape, w InputWeights, iccSizes []int) Input {
-	switch t.Pick(w.Corpus, w.Valid, w.ICCDamaged, w.Damaged, w.Random, w.SigJunk, w.Polyglot, w.Empty, w.ShortSOF) {
+	switch t.Pick(w.Corpus, w.Valid, w.ICCDamaged, w.Damaged, w.Random, w.SigJunk, w.Polyglot, w.Empty, w.ShortSOF, w.Soup) {
+	case 9:
+		return drawSoup(t)
 	case 8:
 		f := refmodel.BuildJPEG(refmodel.DrawJPEG(t, 0, iccSizes, false, nil))
 		b := f.Bytes()
@@ -213,7 +221,30 @@ func DrawInput(t *tape.Tape, w InputWeights, iccSizes []int) Input {
 		b := GenValid(t, false, []int{1, 300, 5000})
 		ab, bb := a.Bytes(), b.Bytes()
 		var data []byte
-		mode := t.Intn(3)
+		mode := t.Intn(4)
+		if mode == 3 {
+			// B embedded whole in an ancillary structure of a valid A (a PNG private
+			// chunk right after IHDR, a JPEG comment segment right after SOI): A is
+			// still a valid file of its own format
+			small := GenValid(t, false, []int{1, 300})
+			sb := small.Bytes()
+			if len(sb) > 60000 {
+				sb = sb[:60000]
+			}
+			var host *refmodel.File
+			if t.Bool() {
+				pp := refmodel.DrawPNG(t, 0, []int{1, 300}, false)
+				pp.Pre = append([]refmodel.PNGChunk{{Type: "prVt", Data: sb}}, pp.Pre...)
+				host = refmodel.BuildPNG(pp)
+			} else {
+				jp := refmodel.DrawJPEG(t, 0, []int{1, 300}, false, nil)
+				jp.Segs = append([]refmodel.JPEGSeg{{Marker: 0xFE, Payload: sb, Tag: "COM(embedded file)"}}, jp.Segs...)
+				host = refmodel.BuildJPEG(jp)
+			}
+			tr := host.Truth
+			return Input{Class: "polyglot", Desc: fmt.Sprintf("polyglot mode 3: %s embedded in an ancillary structure of %s", trunc(small.Truth.Desc, 60), trunc(tr.Desc, 60)),
+				Data: host.Bytes(), Fields: tr.Fields}
+		}
 		switch mode {
 		case 0: // signature of A, then all of B
 			n := 8
@@ -241,4 +272,113 @@ func DrawInput(t *tape.Tape, w InputWeights, iccSizes []int) Input {
 	default:
 		return Input{Class: "empty", Desc: "empty input", Data: nil}
 	}
+}
+
+func soupLen(t *tape.Tape, actual int) int {
+	switch t.Pick(6, 2, 2, 1) {
+	case 0:
+		return actual
+	case 1:
+		return [...]int{0, 1, 2, 3, 4, 8, 9, 12, 13, 14}[t.Intn(10)]
+	case 2:
+		return actual + t.Intn(3) - 1
+	default:
+		return [...]int{0xFFFF, 0x7FFFFFFF, 0xFFFFFFF0}[t.Intn(3)]
+	}
+}
+
+// drawSoup builds a marker / chunk soup of a drawn container format.
+func drawSoup(t *tape.Tape) Input {
+	r := t.Sub()
+	rnd := func(n int) []byte { b := make([]byte, n); r.Fill(b); return b }
+	var b []byte
+	desc := ""
+	n := 1 + t.Intn(6)
+	switch t.Intn(3) {
+	case 0: // JPEG
+		desc = "JPEG soup:"
+		if t.Chance(7, 10) {
+			b = append(b, 0xFF, 0xD8)
+			desc += " SOI"
+		}
+		markers := []byte{0xC0, 0xC2, 0xC4, 0xDA, 0xDB, 0xDD, 0xE0, 0xE1, 0xE2, 0xE2, 0xEE, 0xFE, 0xD0, 0xD9, 0xD8, 0xC1, 0x01, 0xFF}
+		for i := 0; i < n; i++ {
+			m := markers[t.Intn(len(markers))]
+			var payload []byte
+			switch t.Intn(4) {
+			case 0:
+				payload = []byte{8, 0, byte(1 + r.Intn(200)), 0, byte(1 + r.Intn(200)), 3, 1, 0x11, 0, 2, 0x11, 1, 3, 0x11, 1}
+			case 1:
+				payload = append([]byte("ICC_PROFILE\x00"), byte(r.Intn(3)), byte(r.Intn(3)))
+				payload = append(payload, rnd(r.Intn(40))...)
+			case 2:
+				payload = rnd(r.Intn(30))
+			}
+			b = append(b, 0xFF, m)
+			if (m >= 0xD0 && m <= 0xD9) || m == 0x01 || m == 0xFF {
+				desc += fmt.Sprintf(" %02X", m)
+				continue
+			}
+			l := soupLen(t, len(payload)+2)
+			b = append(b, byte(l>>8), byte(l))
+			b = append(b, payload...)
+			desc += fmt.Sprintf(" %02X(len %d, %d bytes)", m, l&0xFFFF, len(payload))
+		}
+	case 1: // PNG
+		desc = "PNG soup:"
+		if t.Chance(8, 10) {
+			b = append(b, signatures[0]...)
+			desc += " sig"
+		}
+		types := []string{"IHDR", "IHDR", "iCCP", "iCCP", "IDAT", "IEND", "tEXt", "PLTE", "ihdr", "\x00\x00\x00\x00"}
+		for i := 0; i < n; i++ {
+			typ := types[t.Intn(len(types))]
+			var payload []byte
+			switch t.Intn(4) {
+			case 0:
+				payload = []byte{0, 0, 0, byte(1 + r.Intn(200)), 0, 0, 0, byte(1 + r.Intn(200)), 8, 2, 0, 0, 0}
+			case 1:
+				payload = append([]byte("n\x00\x00"), 0x78, 0x9c, 0x63, 0x60, 0x00, 0x00, 0x00, 0x02, 0x00, 0x01)
+			case 2:
+				payload = rnd(r.Intn(30))
+			}
+			l := uint32(soupLen(t, len(payload)))
+			b = append(b, byte(l>>24), byte(l>>16), byte(l>>8), byte(l))
+			b = append(b, typ...)
+			b = append(b, payload...)
+			if t.Chance(4, 5) {
+				b = append(b, rnd(4)...) // CRC (never checked by a metadata reader, random here)
+			}
+			desc += fmt.Sprintf(" %q(len %d, %d bytes)", typ, l, len(payload))
+		}
+	default: // WebP
+		desc = "WebP soup:"
+		if t.Chance(8, 10) {
+			sz := uint32(soupLen(t, 100))
+			b = append(b, 'R', 'I', 'F', 'F', byte(sz), byte(sz>>8), byte(sz>>16), byte(sz>>24))
+			b = append(b, [...]string{"WEBP", "WEBP", "WEBP", "WEB", "webp"}[t.Intn(5)]...)
+			desc += " RIFF/WEBP"
+		}
+		types := []string{"VP8 ", "VP8L", "VP8X", "VP8X", "ICCP", "ICCP", "ANIM", "vp8x"}
+		for i := 0; i < n; i++ {
+			typ := types[t.Intn(len(types))]
+			var payload []byte
+			switch t.Intn(4) {
+			case 0:
+				payload = []byte{0x20, 0, 0, 0, byte(r.Intn(256)), 0, 0, byte(r.Intn(256)), 0, 0}
+			case 1:
+				payload = []byte{0x10, 0, 0, 0x9d, 0x01, 0x2a, 8, 0, 8, 0}
+			case 2:
+				payload = append([]byte{0x2f}, rnd(4+r.Intn(20))...)
+			default:
+				payload = rnd(r.Intn(30))
+			}
+			l := uint32(soupLen(t, len(payload)))
+			b = append(b, typ...)
+			b = append(b, byte(l), byte(l>>8), byte(l>>16), byte(l>>24))
+			b = append(b, payload...)
+			desc += fmt.Sprintf(" %q(len %d, %d bytes)", typ, l, len(payload))
+		}
+	}
+	return Input{Class: "soup", Desc: trunc(desc, 260), Data: b, Fields: refmodel.WalkFields(b), Faults: []string{"structure soup"}}
 }
